@@ -1290,6 +1290,16 @@ func (env *SpecEnv) callExpr(e *SExpr) SVal {
 		t := tSelect(vc.heapGet(env.st.heap, comp), mk("(iref "+x.T.S+")", sortRef))
 		t.T = vc.sortOf(dt)
 		return vc.svalOfLoaded(t, dt)
+	case "samecomp":
+		// samecomp("T"): no object of type T (or no map/ghost component of that name) differs from its old state
+		if len(e.Args) != 1 {
+			env.fail("samecomp(\"T\")")
+		}
+		tgt := vc.modTarget(env, &SExpr{Op: "call", Name: "heap", Args: []*SExpr{e.Args[0]}})
+		if tgt.kind != "comp" {
+			env.fail("samecomp: unknown component")
+		}
+		return SVal{T: tEq(vc.heapGet(env.st.heap, tgt.comp), vc.heapGet(env.old.heap, tgt.comp)), GoT: types.Typ[types.Bool]}
 	case "ptr":
 		// ptr(T, r): the pointer of type *T whose reference is the integer r (inverse of ref)
 		if len(e.Args) != 2 {
